@@ -35,6 +35,9 @@ def pid_exists(pid):
         return True
     try:
         os.kill(pid, 0)
+    except OverflowError:
+        # bigger than the platform's pid_t: no such PID can exist
+        return False
     except ProcessLookupError:
         return False
     except PermissionError:
